@@ -148,8 +148,9 @@ Proof.
   - destruct (reg s); inversion Hs; subst; apply Hleft; reflexivity.
   - destruct (get ai s) as [a0 |]; [| discriminate]. destruct (memN ai (reinst s)); [| discriminate].
     inversion Hs; subst; clear Hs. apply Hleft; reflexivity.
-  - destruct (step_refresh _ _ _ Hs) as [-> | (_ & att' & rot & _ & _ & _ & _ & _ & _ & _ & _ & Hq & Hp & _ & _ & Hrq & Hpl & _)]; [apply Hleft; reflexivity |].
+  - destruct (step_refresh _ _ _ _ Hs) as [-> | (_ & att' & rot & _ & _ & _ & _ & _ & _ & _ & _ & Hq & Hp & _ & _ & Hrq & Hpl & _)]; [apply Hleft; reflexivity |].
     apply Hleft; auto.
+  - destruct (get ai s); inversion Hs; subst. apply Hleft; reflexivity.
 Qed.
 
 Lemma InvF_check_one : forall r s e, InvA s -> InvF s -> InvF (check_one r s e).
@@ -332,7 +333,8 @@ Proof.
   - destruct (reg s); inversion Hs; subst; left; reflexivity.
   - destruct (get ai s) as [a0 |]; [| discriminate]. destruct (memN ai (reinst s)) eqn:Hm; [| discriminate].
     inversion Hs; subst; clear Hs. right. right. exists ai. auto.
-  - destruct (step_refresh _ _ _ Hs) as [-> | (_ & att' & rot & _ & _ & _ & _ & _ & _ & _ & _ & _ & _ & _ & Hr & _)]; left; [reflexivity | exact Hr].
+  - destruct (step_refresh _ _ _ _ Hs) as [-> | (_ & att' & rot & _ & _ & _ & _ & _ & _ & _ & _ & _ & _ & _ & Hr & _)]; left; [reflexivity | exact Hr].
+  - destruct (get ai s); inversion Hs; subst. left; reflexivity.
 Qed.
 
 Lemma memN_remove_first_sub : forall x y l, memN x (remove_first y l) = true -> memN x l = true.
@@ -440,7 +442,8 @@ Proof.
   - destruct (reg s); inversion Hs; subst; reflexivity.
   - destruct (get ai s) as [a0 |]; [| discriminate]. destruct (memN ai (reinst s)); [| discriminate].
     inversion Hs; subst; clear Hs. reflexivity.
-  - destruct (step_refresh _ _ _ Hs) as [-> | (_ & att' & rot & _ & _ & Hn & _)]; [reflexivity | exact Hn].
+  - destruct (step_refresh _ _ _ _ Hs) as [-> | (_ & att' & rot & _ & _ & Hn & _)]; [reflexivity | exact Hn].
+  - destruct (get ai s); inversion Hs; subst. reflexivity.
 Qed.
 
 Lemma fst_upd_lastok : forall ai c t l, fst (upd_lastok ai (c, t) l) = upd_clock c l.
@@ -535,7 +538,7 @@ Qed.
 
 (* the ghost "shrunk" changes only when a refresh drops an endpoint that has an adapter *)
 Theorem shrunk_only_by_dropping_refresh : forall s l s', step s l = Some s' -> shrunk s = false -> shrunk s' = true ->
-  exists r e ai, l = Refresh r /\ lookup e (att s) = Some ai /\ ~ In e r.
+  exists r i e ai, l = Refresh r i /\ lookup e (att s) = Some ai /\ ~ In e r /\ ~ In e i.
 Proof.
   intros s l s' Hs H0 H1.
   destruct l; simpl in Hs.
@@ -555,12 +558,13 @@ Proof.
   - destruct (reg s); inversion Hs; subst; congruence.
   - destruct (get ai s) as [a0 |]; [| discriminate]. destruct (memN ai (reinst s)); [| discriminate].
     inversion Hs; subst; clear Hs. simpl in H1. congruence.
-  - destruct (step_refresh _ _ _ Hs) as [-> | (_ & att' & rot & _ & _ & _ & _ & _ & _ & _ & _ & _ & _ & _ & _ & _ & _ & Hsh)]; [congruence |].
+  - destruct (step_refresh _ _ _ _ Hs) as [-> | (_ & att' & rot & _ & _ & _ & _ & _ & _ & _ & _ & _ & _ & _ & _ & _ & _ & Hsh)]; [congruence |].
     rewrite Hsh, H0 in H1. simpl in H1. apply existsb_exists in H1. destruct H1 as [[e ai] [Hin Hneg]]. simpl in Hneg.
     apply negb_true_iff in Hneg. apply memN_false in Hneg.
-    clear Hs Hsh. exists l, e.
+    clear Hs Hsh. exists l, inact, e.
     assert (Hex : exists ai', lookup e (att s) = Some ai').
     { induction (att s) as [| [k v] m IH]; [destruct Hin |]. simpl. destruct (N.eqb e k) eqn:Hek; [eauto |].
       destruct Hin as [Heq | Hin]; [inversion Heq; subst; rewrite N.eqb_refl in Hek; discriminate | auto]. }
-    destruct Hex as [ai' Hl]. exists ai'. auto.
+    destruct Hex as [ai' Hl]. exists ai'. rewrite in_app_iff in Hneg. tauto.
+  - destruct (get ai s); inversion Hs; subst. congruence.
 Qed.
